@@ -1908,7 +1908,8 @@ class LinearOperator(object):
         from linear_operator.operators.zero_linear_operator import ZeroLinearOperator
 
         if isinstance(other, ZeroLinearOperator):
-            return other
+            # A * 0 is a zero operator of the broadcast shape (raises if the shapes are incompatible)
+            return other.mul(self)
 
         if not (torch.is_tensor(other) or isinstance(other, LinearOperator)):
             other = torch.tensor(other, dtype=self.dtype, device=self.device)
@@ -2825,7 +2826,8 @@ class LinearOperator(object):
         from linear_operator.operators.zero_linear_operator import ZeroLinearOperator
 
         if isinstance(other, ZeroLinearOperator):
-            return self
+            # A + 0 is A, broadcast to the common shape (raises if the shapes are incompatible)
+            return other + self
         elif isinstance(other, DiagLinearOperator):
             return AddedDiagLinearOperator(self, other)
         elif isinstance(other, RootLinearOperator):
